@@ -132,6 +132,37 @@ fn main() {
             }
         }
     }
+    // small rectangles x every combination of four corner radii from a small set (corners that overlap
+    // diagonally although the radii fit on every side)
+    {
+        let rset: &[(u32, u32)] = if th { &[(0, 0), (1, 1), (2, 2), (6, 6), (1, 2), (3, 1)] } else { &[(0, 0), (1, 1), (2, 2), (6, 6), (1, 2)] };
+        let n = rset.len();
+        let smax = if th { 6 } else { 4 };
+        for w in 1..=smax {
+            for h in 1..=smax {
+                for k in 0..n * n * n * n {
+                    // quick: half of the combinations per size, rotating
+                    if !th && (k + w as usize + h as usize) % 2 == 1 {
+                        continue;
+                    }
+                    let (a, b, c, d) = (rset[k % n], rset[(k / n) % n], rset[(k / n / n) % n], rset[k / n / n / n]);
+                    run_case(&mut rec, &json!({"k":"rrect","r":[20, 30, w, h],"radii":[[a.0,a.1],[b.0,b.1],[c.0,c.1],[d.0,d.1]]}));
+                }
+            }
+        }
+    }
+    // diagonal pairs: two opposite corners large (up to / beyond the rectangle), the other two small
+    for k in 0..(if th { 20000 } else { 2500 }) {
+        let m = if k % 3 == 0 { 30 } else { 12 };
+        let w = rng.u32r(1, m);
+        let h = rng.u32r(1, m);
+        let mut big = || json!([rng.u32r(1, m + 6), rng.u32r(1, m + 6)]);
+        let (a, c) = (big(), big());
+        let mut small = || json!([rng.u32r(0, 2), rng.u32r(0, 2)]);
+        let (b, d) = (small(), small());
+        let radii = if k % 2 == 0 { json!([a, b, c, d]) } else { json!([b, a, d, c]) };
+        run_case(&mut rec, &json!({"k":"rrect","r":[rng.i32(-5, 5), rng.i32(-5, 5), w, h],"radii":radii}));
+    }
     let n_rr = if th { 20000 } else { 1500 };
     for _ in 0..n_rr {
         let big = rng.chance(1, 3);
